@@ -1366,8 +1366,12 @@ func ruleErr(sc errScope) ruleFn {
 }
 
 // terminates reports whether fn is a connection-owning function whose reaction to a failure
-// is to end the connection: it is tabled as such, or it returns
-// nothing and is called only from such functions (a phase split out of one).
+// is to end the connection: it is tabled as such, or it is a phase split out of one — called
+// only from such functions, in a way that makes its return the caller's: it hands back one
+// boolean that the caller branches on to leave, or it returns nothing and the call is the last
+// thing the caller does (or is deferred by it). A phase without a result that is called in the
+// middle of its caller cannot make it leave: its `return` goes back into the caller's loop
+// (fifth audit: the start branch of the websocket handler as a no-result method).
 func (r *Run) terminates(fn *ssa.Function, depth int) (string, bool) {
 	if reason, ok := terminateTable[fnName(fn)]; ok {
 		return reason, true
@@ -1415,6 +1419,8 @@ func (r *Run) terminates(fn *ssa.Function, depth int) (string, bool) {
 			if !leaves {
 				return "", false
 			}
+		} else if _, deferred := e.Site.(*ssa.Defer); !deferred && !lastEffect(e.Caller, e.Site) {
+			return "", false // the caller goes on after the call whatever happened in it
 		}
 		why, ok := r.terminates(e.Caller, depth+1)
 		if !ok {
